@@ -1,6 +1,7 @@
 import Sourcer.Properties
 import Tie.Flags
 import Tie.Excerpt
+import Tie.MetaTable
 /-
   Axiom audit: `#print axioms` for every property theorem and every tie obligation.
   The check parses this output; anything outside {propext, Classical.choice, Quot.sound} fails.
@@ -61,8 +62,12 @@ import Tie.Excerpt
 #print axioms Sourcer.C17_nested_options
 #print axioms Sourcer.C17_nested_failing_choices
 #print axioms Sourcer.C18_interleaving
+#print axioms Sourcer.C19_sugar
+#print axioms Sourcer.C19_repeat
+#print axioms Sourcer.C19_choice
 #print axioms Tie.implFlags_sound -- module Tie.Flags
 #print axioms Tie.impl_refines -- module Tie.Flags
 #print axioms Tie.map_index_eq -- module Tie.Excerpt
 #print axioms Tie.linecol_spec -- module Tie.Excerpt
 #print axioms Tie.excerpt_spec -- module Tie.Excerpt
+#print axioms Tie.metaTable_grouping -- module Tie.MetaTable
